@@ -43,6 +43,7 @@ type Run struct {
 	knownHit   map[string]int
 	findings   []Finding
 	inconcl    int64
+	extraDist  int64
 	root       string
 }
 
@@ -127,6 +128,15 @@ func (r *Run) EvalN(sig string, n int64) {
 	r.mu.Unlock()
 }
 
+// EvalDistinct counts n evaluations that are pairwise distinct and non-trivial
+// by construction (e.g. the leaves of an enumeration) without storing them.
+func (r *Run) EvalDistinct(n int64) {
+	r.mu.Lock()
+	r.evals += n
+	r.extraDist += n
+	r.mu.Unlock()
+}
+
 // Sample keeps up to maxSamples concrete cases for the evidence file.
 func (r *Run) Sample(x any) {
 	r.mu.Lock()
@@ -203,6 +213,9 @@ func (r *Run) Violation(key string, detail any) {
 		return
 	}
 	dir := filepath.Join(r.root, "evidence", "replay")
+	if d := os.Getenv("VF_EVIDENCE_DIR"); d != "" {
+		dir = filepath.Join(d, "replay")
+	}
 	os.MkdirAll(dir, 0o755)
 	path := filepath.Join(dir, fmt.Sprintf("%s-%s-seed%d-%d.json", r.Prop, r.Tier, r.Seed, n))
 	w := map[string]any{"property": r.Prop, "tier": r.Tier, "seed": r.Seed, "key": key, "witness": detail,
@@ -227,7 +240,7 @@ func (r *Run) Evals() int64 { r.mu.Lock(); defer r.mu.Unlock(); return r.evals }
 // of the run's precondition ("observed nothing").
 func (r *Run) Finish(minEvals int64) int {
 	r.mu.Lock()
-	if r.evals < minEvals || len(r.sigs) < 2 {
+	if r.evals < minEvals || int64(len(r.sigs))+r.extraDist < 2 {
 		r.mu.Unlock()
 		r.Violation("observed-nothing", map[string]any{"evaluations": r.evals, "distinct": len(r.sigs), "required": minEvals,
 			"meaning": "the workload did not reach the behaviour the property is about"})
@@ -266,7 +279,7 @@ func (r *Run) Finish(minEvals int64) int {
 	}
 	cov := map[string]any{
 		"evaluations":         r.evals,
-		"distinct_nontrivial": len(r.sigs),
+		"distinct_nontrivial": int64(len(r.sigs)) + r.extraDist,
 		"rule":                r.rule,
 		"samples":             samples,
 		"observed":            obs,
@@ -309,7 +322,7 @@ func (r *Run) Finish(minEvals int64) int {
 		fmt.Printf("KNOWN-FINDING: property=%s %s (%d cases)\n", r.Prop, what, r.knownHit[k])
 	}
 	fmt.Printf("SUMMARY property=%s tier=%s seed=%d evaluations=%d distinct_nontrivial=%d inconclusive=%d violations=%d wall_s=%.1f\n",
-		r.Prop, r.Tier, r.Seed, r.evals, len(r.sigs), r.inconcl, len(r.violations), time.Since(r.start).Seconds())
+		r.Prop, r.Tier, r.Seed, r.evals, int64(len(r.sigs))+r.extraDist, r.inconcl, len(r.violations), time.Since(r.start).Seconds())
 	if len(r.violations) == 0 {
 		return 0
 	}
